@@ -2,7 +2,8 @@
 C08 — multisequence_partition / multisequence_selection split sorted runs at the exact global rank.
 
 Property theorems.  Spec level (any element type, any strict weak order, all inputs):
-  * `partition_nested`, `partition_unique`  — the split vector is unique and monotone in the rank
+  * `partition_nested`, `partition_unique_at_rank`, `partition_exists_for_every_rank`
+                                             — exactly one split vector per rank, monotone in the rank
   * `checker_sound`, `checker_complete`      — the O(m²) boundary checker decides the spec
 Model level (transliteration `Model/C08Msp.lean` of the C++):
   * `certified_run_is_the_partition`         — a model run accepted by the checker returned THE partition
@@ -11,6 +12,7 @@ The all-inputs correctness of the halving refinement is OPEN (see the end of the
 -/
 import TlxVerif.Proofs.C08Spec
 import TlxVerif.Proofs.C08Checker
+import TlxVerif.Proofs.C08Exists
 import TlxVerif.Model.C08Msp
 namespace TlxVerif.C08
 
@@ -28,6 +30,13 @@ theorem partition_unique_at_rank {lt : α → α → Bool} (hlt : StrictWeak lt)
     {offs offs' : List Nat} (h : IsPartition lt runs r offs) (h' : IsPartition lt runs r offs') :
     offs = offs' :=
   partition_unique hlt h h'
+
+/-- for sorted runs every rank `0 ≤ r ≤ N` has a partition (with uniqueness: exactly one) -/
+theorem partition_exists_for_every_rank {lt : α → α → Bool} (hlt : StrictWeak lt) {runs : List (List α)}
+    (hs : ∀ r ∈ runs, SortedRun lt r) (rank : Nat) (hr : rank ≤ (runs.map List.length).sum) :
+    ∃ offs, IsPartition lt runs rank offs ∧ ∀ offs', IsPartition lt runs rank offs' → offs' = offs := by
+  obtain ⟨offs, h⟩ := partition_exists hlt hs rank hr
+  exact ⟨offs, h, fun offs' h' => partition_unique hlt h' h⟩
 
 theorem checker_sound {lt : α → α → Bool} (hlt : StrictWeak lt) {runs : List (List α)}
     (hs : ∀ r ∈ runs, SortedRun lt r) {rank : Nat} {offs : List Nat}
@@ -81,5 +90,32 @@ theorem certified_run_is_the_partition {c : Ctx} (hlt : StrictWeak c.lt)
   · cases h
 
 example : certifiedPartition ⟨Cmp.lt.fn, #[#[1, 2, 2, 2], #[1, 1]]⟩ 4 = some [2, 2] := by decide +kernel
+
+/-- the `rank == N` shortcut of `multisequence_partition`: every offset is the end of its sequence, and
+no element is read -/
+theorem partition_rank_total (c : Ctx) :
+    runM (partitionM c (totalLen c)) = .ok (c.runs.map (fun x => (x.size : Int)), #[]) := by
+  simp [runM, partitionM, StateT.run, pure, StateT.pure, Except.pure]
+
+/-- … and the ends of the sequences are the partition at rank N -/
+theorem ends_are_partition_at_total (lt : α → α → Bool) (runs : List (List α)) :
+    IsPartition lt runs (runs.map List.length).sum (runs.map List.length) := by
+  refine ⟨by simp, ?_, rfl, ?_⟩
+  · intro i r o hr ho
+    simp only [List.getElem?_map, hr, Option.map_some, Option.some.injEq] at ho
+    omega
+  · intro i j ri rj oi oj _ _ hrj _ hoj x _ y hy
+    simp only [List.getElem?_map, hrj, Option.map_some, Option.some.injEq] at hoj
+    subst hoj; simp at hy
+
+-- OPEN: msp_correct — for all sorted non-empty runs and 0 ≤ rank ≤ N, `partitionM` succeeds and its result is
+--   the `IsPartition` offset vector (correctness of the halving refinement with the two priority queues,
+--   Varman et al.): not proved.  Individual runs are certified by `certified_run_is_the_partition`
+--   (translation validation); C06/C07 take `IsPartition` as hypothesis.
+-- OPEN: msp_bounds — `0 ≤ a[i] ≤ len_i`, no out-of-range read and no `top()` of an empty queue for all inputs
+--   (the model answers `model-failure` where the C++ would be undefined): not proved, never observed.
+-- OPEN: selection_correct — `selectionM` returns a value equivalent to the rank-th element and its offset among
+--   the equivalent elements, for all inputs: checked by the harness oracle (4 M exhaustive cases) and the
+--   correspondence only.
 
 end TlxVerif.C08
